@@ -399,6 +399,11 @@ def check_shift_wrapper(rep, M: Metrics, pre: str = "") -> None:
             if t[0] == "call" and t[1] in (("mod", "numpy.array"), ("mod", "numpy.asarray"), ("mod", "numpy.copy")) \
                     and len(t[2]) == 1 and not t[3]:
                 return t[2][0]
+            if t[0] in ("call", "alloc") and (t[1] in (("mod", "numpy.array"), ("mod", "numpy.asarray")) or t[1] in ("numpy.array", "numpy.asarray")) \
+                    and len(t[2]) == 1 and dict(t[3]).keys() == {"dtype"} and dict(t[3])["dtype"] in (
+                        ("call", ("mod", "numpy.result_type"), (t[2][0], ("K", "EPSILON")), ()),
+                        ("call", ("mod", "numpy.result_type"), (("K", "EPSILON"), t[2][0]), ())):
+                return t[2][0]  # a copy in the very type `v + EPSILON` has: the sum is the same number
             if t[0] == "sel" and t[2] == t[3]:
                 return t[2]
             return t
